@@ -324,6 +324,8 @@ func runC04(c *core.Ctx) {
 
 	checkDatasourcePushdown(c)
 	checkMergeFilters(c)
+	c.Rule("FALLIBLE", "predicates moved below a join cannot fail at run time")
+	checkFalliblePushdown(c)
 	checkIsUsed(c)
 	checkPruners(c)
 	checkJoinNullKeys(c, "NULLKEY")
@@ -828,4 +830,95 @@ func checkStreamJoinKeyPushdown(c *core.Ctx) {
 					return nil, false
 				}
 		})
+}
+
+// checkFalliblePushdown (FALLIBLE): a rewrite that moves a predicate (or a part of it) below a join evaluates it on
+// rows the join would have dropped before the original filter saw them. That preserves the result only for predicates
+// that cannot fail at run time. The rule counts the function descriptors whose body can return an error and, if there
+// are any, requires each such rewrite to look at which functions the moved expression calls (a read of
+// FunctionCall.Name / FunctionDescriptor applied below the top level of the conjunct), directly or through a helper.
+func checkFalliblePushdown(c *core.Ctx) {
+	p := c.Prog
+	t := loadFunctions(c, "FALLIBLE")
+	if t == nil {
+		return
+	}
+	var fallible []string
+	seen := map[string]bool{}
+	for _, d := range t.descs {
+		if d.Function == nil {
+			continue
+		}
+		for _, rs := range returnsOfLit(d.Function) {
+			if len(rs.Results) == 2 && !core.IsNilIdent(t.info, rs.Results[1]) && !seen[d.Name] {
+				seen[d.Name] = true
+				fallible = append(fallible, d.Name)
+			}
+		}
+	}
+	sort.Strings(fallible)
+	c.Note(fmt.Sprintf("FALLIBLE: %d functions can return an error at run time: %s", len(fallible), strings.Join(fallible, " ")))
+	byName := map[string]*core.FuncRef{}
+	for _, fr := range p.AllFuncs("optimizer", "physical") {
+		byName[p.FName(fr)] = fr
+	}
+	// does fn (transitively, through optimizer/physical helpers) look at the callee of a function call expression?
+	var screens func(fr *core.FuncRef, depth int, topLevelOnly bool, visited map[*core.FuncRef]bool) bool
+	screens = func(fr *core.FuncRef, depth int, topLevelOnly bool, visited map[*core.FuncRef]bool) bool {
+		if fr == nil || visited[fr] || depth > 4 {
+			return false
+		}
+		visited[fr] = true
+		found := false
+		ast.Inspect(fr.Decl.Body, func(n ast.Node) bool {
+			isCalleeRead := func(e ast.Expr) bool {
+				s := core.ExprStr(e)
+				if strings.HasSuffix(s, ".FunctionCall.Name") || strings.HasSuffix(s, ".FunctionCall.FunctionDescriptor") || strings.HasSuffix(s, ".FunctionDescriptor.Function") {
+					// the conjunct's own operator (filterPredicates[i].FunctionCall.Name != "=") says nothing about its operands
+					return !(topLevelOnly && strings.HasPrefix(s, "filterPredicates["))
+				}
+				return false
+			}
+			switch n := n.(type) {
+			// only a read that decides something counts (a comparison, a switch, a table lookup) — the generic
+			// expression transformer copies the name into the rebuilt call without looking at it
+			case *ast.BinaryExpr:
+				if (n.Op == token.EQL || n.Op == token.NEQ) && (isCalleeRead(n.X) || isCalleeRead(n.Y)) {
+					found = true
+				}
+			case *ast.SwitchStmt:
+				if n.Tag != nil && isCalleeRead(n.Tag) {
+					found = true
+				}
+			case *ast.IndexExpr:
+				if isCalleeRead(n.Index) {
+					found = true
+				}
+			case *ast.CallExpr:
+				if callee := byName[p.CalleeName(fr.Info(), n)]; callee != nil && callee != fr {
+					if screens(callee, depth+1, false, visited) {
+						found = true
+					}
+				}
+			}
+			return true
+		})
+		return found
+	}
+	n := 0
+	for _, name := range []string{"PushDownFilterPredicatesIntoStreamJoinBranch", "PushDownFilterPredicatesIntoLookupJoinBranch", "PushDownFilterPredicatesIntoStreamJoinKey"} {
+		fr := p.Func("optimizer", name)
+		key := "optimizer." + name
+		if fr == nil {
+			c.Unknown("FALLIBLE", key, 0, "anchor not found")
+			continue
+		}
+		n++
+		c.SawFunc(key)
+		ok := len(fallible) == 0 || screens(fr, 0, true, map[*core.FuncRef]bool{})
+		c.Decide(ok, "FALLIBLE", key, fr.Decl.Pos(), len(fallible), "moved expressions are screened for calls that can fail (or no function can fail)",
+			fmt.Sprintf("the rewrite moves expressions below the join without looking at the functions they call, and %d functions (%s …) can fail at run time: the moved expression is then evaluated on rows the join drops in the unoptimized plan, and the optimized query fails where the unoptimized one returns rows", len(fallible), strings.Join(fallible[:min(4, len(fallible))], " ")))
+	}
+	c.Floor("FALLIBLE", 3, "the three rewrites that move predicates below a join")
+	_ = n
 }
